@@ -166,8 +166,29 @@ def c06(prop, tier, verdict):
                                       'input classes: random, zeros, every truncation of a valid frame, valid prefix + garbage, valid frame + garbage, length field at 7 boundary values, frames announcing 512 MiB / limit+1 with a few bytes following',
                                       'allocation is observed as the TotalAlloc delta around one input with 2 MiB of slack; a process crash is reported through the driver crash path; a control session on the same peer must answer before and after every case']
 
+def c10(prop, tier, verdict):
+    def cl(line, s):
+        ev = line.get('ev')
+        if ev == 'MapCase':
+            return 'router:map:%s:%s%s' % (line.get('mapper'), 'panic' if line.get('panicked') else ('table' if line.get('expected') else 'nondeterministic'), ':' + line.get('name') if line.get('expected') else '')
+        if ev == 'Request':
+            return 'router:request:%s:ran=%s' % (line.get('ns'), '+'.join(line.get('ran') or []) or 'none')
+        return 'router:%s' % ev
+    def sel(allc, rnd, tier):
+        regs = [c for c in allc if c['kind'] == 'reg']
+        rest = [c for c in allc if c['kind'] != 'reg']
+        if tier != 'thorough':
+            regs = rnd.sample(regs, 250)
+        return rest + regs
+    cov, _ = eng_generic.run(prop, tier, verdict, 'Router', 'router', 'PRouter', cl, consts={'MaxLen': '5' if tier == 'thorough' else '4'}, min_count=10000,
+                             select=sel, nontrivial=lambda s: s['kind'] != 'map' or s.get('expected'), check_trace_count=False)
+    return 'model_checking', cov, ['mapper: every identifier string of length <= 4 (quick) / 5 (thorough) over {A,B,a,b,_,1} x 4 prefixes x both mappers for totality and determinism, the 16 documented table rows for equality (the general rule is not transcribed)',
+                                   'dispatch: subsets of a fixed handler inventory (3 controller structs, 2 functions, one CALL and one PUSH handler mapping to the same name) x 3 group prefixes x both mappers x unknown handlers on/off; every returned name, 8 near misses of it and unregistered names requested as CALL and as PUSH',
+                                   'name conflicts are observed as the exit status of a child process']
+
 CHECKS = {
     'C01': c01,
+    'C10': c10,
     'C06': c06,
     'C20': c20,
     'C15': c15,
